@@ -508,9 +508,9 @@ class mn_mep(cls_mn):
         if mode == "l":
             # Invert bytes per 16-bits
             for i in range(len(candidates)):
-                tmp = candidates[i][1] + candidates[i][0]
+                tmp = candidates[i][1:2] + candidates[i][0:1]
                 if len(candidates[i]) == 4:
-                    tmp += candidates[i][3] + candidates[i][2]
+                    tmp += candidates[i][3:4] + candidates[i][2:3]
                 candidates[i] = tmp
             return candidates
 
